@@ -714,8 +714,8 @@ func genGoMiniAll() []*leanFile {
 	clConsts := []string{cl + "leader_epoch_cache.go", cl + "message_set.go", cl + "index.go", cl + "segment.go", cl + "commitlog.go"}
 	var out []*leanFile
 	out = append(out, &leanFile{name: "GoEpochCache", raw: genGoMini("GoEpochCache",
-		[]string{cl + "leader_epoch_cache.go"},
-		map[string][]string{cl + "leader_epoch_cache.go": {
+		[]string{cl + "leader_epoch_cache.go", cl + "commitlog.go"},
+		map[string][]string{cl + "commitlog.go": {"commitLog.append"}, cl + "leader_epoch_cache.go": {
 			"leaderEpochCache.earliestOffset", "leaderEpochCache.latestEpoch", "leaderEpochCache.latestOffset",
 			"leaderEpochCache.findEpoch", "leaderEpochCache.assign", "leaderEpochCache.Assign",
 			"leaderEpochCache.LastOffsetForLeaderEpoch", "leaderEpochCache.LastLeaderEpoch",
